@@ -42,7 +42,7 @@ type Main = Channel<WorkerRequest, WorkerResponse>;
 const DEADLINE: Duration = Duration::from_secs(15);
 
 fn free_addr() -> SocketAddr {
-    TcpListener::bind("127.0.0.1:0").unwrap().local_addr().unwrap()
+    SocketAddr::from(([127, 0, 0, 1], verif_harness::claim_port()))
 }
 
 struct W {
